@@ -105,6 +105,10 @@ class Policy:
 
     def pick(self, waiting):
         w = sorted(waiting)
+        if self.kind == "exact":          # position i of the order decides pick i (schedule exploration)
+            r = self.order[self.pos] if self.pos < len(self.order) else None
+            self.pos += 1
+            return r if r in waiting else w[0]
         if self.kind == "list":
             while self.pos < len(self.order):
                 r = self.order[self.pos]
@@ -165,6 +169,7 @@ def run_ranks(P, target, args, scratch, mode="free", policy=None, timeout=600,
         ev["seq"] = seq[0]
         events.append(ev)
 
+    pend = {}            # rank -> kind of the yield point it waits at (None: start / return from a collective)
     posted = {}          # rank -> (op, root, payload)
     waiting = {}         # rank -> reply to send when granted   (sched mode)
     running = set()      # ranks currently executing user code
@@ -227,9 +232,16 @@ def run_ranks(P, target, args, scratch, mode="free", policy=None, timeout=600,
         # serialised mode: exactly one rank runs at a time
         if not sched or running or not waiting:
             return
-        r = policy.pick(set(waiting))
+        free = sorted(k for k in waiting if pend.get(k) is None)
+        if getattr(policy, "advance_first", False) and free:
+            r = free[0]          # a rank that is not at a file-system step runs on to its next one: not a choice point
+            forced = True
+        else:
+            r = policy.pick(set(waiting))
+            forced = False
+        log({"ev": "grant", "rank": r, "forced": forced, "waiting": sorted(waiting), "pending": {str(k): pend.get(k) for k in waiting}})
         reply = waiting.pop(r)
-        log({"ev": "grant", "rank": r})
+        pend.pop(r, None)
         running.add(r)
         conns[r].send(reply)
 
@@ -287,6 +299,7 @@ def run_ranks(P, target, args, scratch, mode="free", policy=None, timeout=600,
                     log({"ev": "yield", "rank": c.rank, "kind": m[1], "info": m[2]})
                     if sched:
                         waiting[c.rank] = ("ok", None)
+                        pend[c.rank] = m[1]
                     else:
                         c.send(("ok", None))
                         running.add(c.rank)
@@ -326,3 +339,28 @@ def tail(path, n=30):
             return b"\n".join(f.read().splitlines()[-n:]).decode("utf8", "replace")
     except OSError:
         return ""
+
+
+def explore(P, target, make_args, scratch, fs_kinds=("isdir", "mkdir", "makedirs"), max_runs=60, timeout=300):
+    """Stateless exploration of the interleavings of file-system steps of P real rank processes: depth-first over the
+    coordinator's choice points at which at least two waiting ranks are about to execute a file-system step.
+    make_args(k) -> argument tuple of run k (fresh directories).  Returns [(choices, result)]."""
+    stack, seen, out = [[]], {()}, []
+    while stack and len(out) < max_runs:
+        prefix = stack.pop()
+        pol = Policy("exact", order=prefix)
+        pol.advance_first = True
+        res = run_ranks(P, target, make_args(len(out)), scratch, mode="sched", policy=pol, yield_fs=True, timeout=timeout)
+        grants = [e for e in res["events"] if e["ev"] == "grant" and not e.get("forced")]      # the choice points
+        trace = [e["rank"] for e in grants]
+        out.append((trace, res))
+        for i in range(len(prefix), len(grants)):
+            alts = [int(k) for k, v in grants[i]["pending"].items() if v in fs_kinds]
+            if len(alts) >= 2:
+                for a in alts:
+                    if a != trace[i]:
+                        newp = tuple(trace[:i] + [a])
+                        if newp not in seen:
+                            seen.add(newp)
+                            stack.append(list(newp))
+    return out
